@@ -24,12 +24,16 @@ TrReset == /\ l = t0 /\ IsEv("reset")
            /\ n' = Trace[l].n /\ cfg' = Trace[l].cfg /\ cfg' \in Cfgs
            /\ UNCHANGED <<pos, eof, served, ncalls, nret, loc, cancelled>>
 TrFeed == IsEv("feed") /\ Feed(Trace[l].i, Trace[l].cut)
-(* an application action: "loc" is the local state the driver OBSERVED after the action     *)
-(* ("?" where it has no means to observe it); it must be the one the run protocol derives    *)
-(* - otherwise the scenario did not reach the state the generator meant (no verdict about    *)
-(* the library: the check reports such a trace as undecided, not as a violation)             *)
+(* an application action.  "loc" is the local state of the extension the driver OBSERVED     *)
+(* after the action ("?" where it has no means to observe it): it must be the one the run     *)
+(* protocol derives.  "est" tells whether the action did what establishes the state (its      *)
+(* request went on the wire / it returned without an error): it must have, if the action is   *)
+(* part of the scenario's setup.  Otherwise the scenario did not reach the state the          *)
+(* generator meant: no verdict about the library - the check reports a trace rejected HERE    *)
+(* (and nowhere later with a PANIC / STALL) as undecided, not as a violation.                 *)
 TrApp == /\ IsEv("app") /\ AppStart(Trace[l].i, Trace[l].act)
          /\ Trace[l].loc \in {"?", loc'}
+         /\ (Trace[l].i >= 1 /\ Trace[l].i <= Trace[t0].setup) => Trace[l].est
 TrEof == IsEv("eof") /\ Eof
 TrServeRet == IsEv("serve_ret") /\ ServeReturn(Trace[l].out)
 TrCancel == IsEv("cancel") /\ Cancel
